@@ -89,6 +89,16 @@ fn real_main(args: &[String]) -> i32 {
             };
             driver::check(s.as_ref(), &opts)
         }
+        Some("miri-smoke") => match c07::C07.smoke() {
+            Ok(n) => {
+                println!("miri-smoke: {} cases ok", n);
+                0
+            }
+            Err(v) => {
+                println!("miri-smoke: {}: {}", v.ident(), v.detail);
+                1
+            }
+        },
         Some("hashes") => {
             let seed = std::env::var("VERIF_SEED").ok().and_then(|s| s.trim().parse::<u64>().ok()).unwrap_or(driver::DEFAULT_SEED);
             let id = args.get(1).cloned().unwrap_or_default();
